@@ -12,7 +12,7 @@ ENGINE = "sim"
 TECHNIQUE = ("model-based generation of event histories (Hypothesis) over the real Cluster/ControlConnection/Session/pools/"
              "scheduler/reconnection handlers on a deterministic simulated network and virtual clock; history invariants as oracle")
 RULE = ("A case is 2-3 fake nodes (optionally one IGNORED by the load-balancing policy), 1-2 sessions, "
-        "ConstantReconnectionPolicy(1 s) and up to 14 generated events: a pool connection fails (peer closes it and a request "
+        "ConstantReconnectionPolicy(1 s) and up to ~20 generated events (free sequences, or an outage / a removal-racing-reconnection skeleton with generated events interleaved): a pool connection fails (peer closes it and a request "
         "is routed to that host), a node goes down (refuses connections, its sockets are closed) / comes back / refuses the "
         "next k connection attempts, the control node pushes STATUS_CHANGE UP/DOWN or TOPOLOGY_CHANGE NEW_NODE/REMOVED_NODE "
         "(with or without the system tables agreeing), a node leaves / rejoins the topology, the node list is refreshed, a "
@@ -22,8 +22,11 @@ RULE = ("A case is 2-3 fake nodes (optionally one IGNORED by the load-balancing 
         "Distinct by case digest.")
 ASSUMPTIONS = ["network, clock, executor and event loop are simulated (sim/); Cluster, ControlConnection, Session, pools, "
                "scheduler and _HostReconnectionHandler are the real classes (the handler class is subclassed only to "
-               "record instances, attempts and successes)",
+               "record instances, attempts and successes; Cluster.on_remove / on_add are wrapped only to mark when they "
+               "return / start)",
                "cassandra.cluster.random (event debouncing) is replaced by the constant 0",
+               "the three graph default profiles get load-balancing policy instances of their own (by default Cluster wraps the "
+               "default profile's policy into them, so one policy object is notified four times per transition)",
                "invariants are evaluated at quiescent points (no runnable virtual thread at the current virtual time); "
                "pool presence is evaluated after >= 1.5 s of quiet time and at the end",
                "connection attempts take no virtual time (connect races are C45's subject)"]
@@ -47,11 +50,28 @@ def s_case(gran):
         st.tuples(st.just("advance"), st.sampled_from(ADV)),
         st.tuples(st.just("advance"), st.sampled_from(ADV)),
     )
+    ev = ev.map(list)
+    filler = st.lists(ev, max_size=2)
+    long_adv = st.sampled_from([1.0, 1.5, 3.0]).map(lambda d: [["advance", d]])
+    short_adv = st.sampled_from([0.05, 0.15, 0.3, 1.0]).map(lambda d: [["advance", d]])
+    # an outage: the node goes away, at least one reconnection attempt fails, the node comes back
+    outage = st.tuples(h, filler, long_adv, filler, filler, long_adv).map(
+        lambda t: [["node_down", t[0], True]] + t[1] + t[2] + t[3] + [["node_up", t[0]]] + t[4] + t[5])
+    # a removal racing a reconnection: the host is down (reconnector scheduled), then it leaves / is announced removed
+    kill = st.one_of(st.tuples(st.just("conn_fail"), h, st.just(0)), st.tuples(st.just("node_down"), h, st.just(True)))
+    gone = st.one_of(st.tuples(st.just("leave"), st.booleans()), st.tuples(st.just("topology"), st.just("REMOVED_NODE")))
+    race = st.tuples(kill, filler, short_adv, gone, filler, short_adv).map(
+        lambda t: [list(t[0])] + t[1] + t[2] +
+        [[t[3][0], t[0][1], t[3][1]] if t[3][0] == "leave" else ["topology", "REMOVED_NODE", t[0][1]]] + t[4] + t[5])
+    free = st.lists(ev, min_size=1, max_size=14)
+    tail = st.lists(ev, max_size=6)
+    events = st.one_of(free, st.tuples(outage, tail).map(lambda t: t[0] + t[1]), st.tuples(race, tail).map(lambda t: t[0] + t[1]),
+                       st.tuples(outage, race).map(lambda t: t[0] + t[1]))
     return st.fixed_dictionaries({
         "hosts": st.integers(2, 3),
-        "sessions": st.integers(1, 2),
+        "sessions": st.sampled_from([1, 1, 2]),
         "ignored": st.sampled_from([None, None, None, 1, 2]),
-        "events": st.lists(ev.map(list), min_size=1, max_size=14),
+        "events": events,
         "tape": st.lists(st.integers(0, 3), max_size=40 if gran == "locks" else 10),
         "gran": st.just(gran),
     })
@@ -68,25 +88,23 @@ def interpret(case, ctx):
 
 
 def check_sequence(seq):
-    """per-host notification sequence -> None or the name of the first broken rule"""
+    """notification sequence of one Host object -> None or the name of the first broken rule"""
     prev = None
     for kind in seq:
         if prev is not None:
             if kind in ("up", "add") and prev in ("up", "add"):
                 return "%s-after-%s" % (kind, prev)
-            if kind == "down" and prev in ("down", "remove"):
-                return "down-after-%s" % prev
-            if kind == "remove" and prev == "remove":
-                return "remove-after-remove"
-            if kind == "up" and prev == "remove":
-                return "up-after-remove"
+            if kind == "down" and prev == "down":
+                return "down-after-down"
+            if prev == "remove":
+                return "%s-after-remove" % kind
         prev = kind
     return None
 
 
 def _run(case, ctx, sim):
     import cassandra.cluster as C
-    from cassandra.cluster import EXEC_PROFILE_DEFAULT, ExecutionProfile
+    from cassandra.cluster import ExecutionProfile
     from cassandra.policies import ConstantReconnectionPolicy, HostDistance
     net = sim.net
     world = sim.world
@@ -102,9 +120,11 @@ def _run(case, ctx, sim):
 
     handlers = []
 
-    class RecHandler(C._HostReconnectionHandler):
+    Orig = C._HostReconnectionHandler
+
+    class RecHandler(Orig):
         def __init__(self, *a, **k):
-            C._HostReconnectionHandler.__init__(self, *a, **k)
+            Orig.__init__(self, *a, **k)
             self.rec_attempts = []
             self.rec_failed = 0
             self.rec_succeeded = False
@@ -114,18 +134,38 @@ def _run(case, ctx, sim):
         def try_reconnect(self):
             self.rec_attempts.append(world.now)
             try:
-                return C._HostReconnectionHandler.try_reconnect(self)
+                return Orig.try_reconnect(self)
             except Exception:
                 self.rec_failed += 1
                 raise
 
         def on_reconnection(self, connection):
             self.rec_succeeded = True
-            return C._HostReconnectionHandler.on_reconnection(self, connection)
+            return Orig.on_reconnection(self, connection)
     sim.patch.set(C, "_HostReconnectionHandler", RecHandler)
+    marks = []      # ("removed" | "adding", address, number of connection attempts so far)
+    removed_objs = []   # Host objects whose Cluster.on_remove has returned
+
+    def on_remove(self, host, _orig=C.Cluster.on_remove):
+        a, before = host.endpoint.address, len(marks)
+        try:
+            return _orig(self, host)
+        finally:
+            # (the node-list refresh inside on_remove may re-add the address at once: then there is nothing to watch)
+            if not self.is_shutdown:
+                removed_objs.append(host)
+                if not any(m[0] == "adding" and m[1] == a for m in marks[before:]):
+                    marks.append(("removed", a, len(net.connect_log)))
+
+    def on_add(self, host, refresh_nodes=True, _orig=C.Cluster.on_add):
+        marks.append(("adding", host.endpoint.address, len(net.connect_log)))
+        return _orig(self, host, refresh_nodes)
+    sim.patch.set(C.Cluster, "on_remove", on_remove)
+    sim.patch.set(C.Cluster, "on_add", on_add)
     S.fixed_random(sim, [0.0])
 
-    cluster = sim.make_cluster(addrs[:1], execution_profiles={EXEC_PROFILE_DEFAULT: prof},
+    dist = {ignored_addr: "ignored"} if ignored_addr else None
+    cluster = sim.make_cluster(addrs[:1], execution_profiles=S.separate_profiles(prof, lambda: S.plan_policy(distances=dist)),
                                reconnection_policy=ConstantReconnectionPolicy(1.0, max_attempts=None))
     cluster.register_listener(S.recording_listener(lis_log, clock=lambda: world.now))
     sessions = []
@@ -136,8 +176,7 @@ def _run(case, ctx, sim):
         return
     sim.settle()
     # the LBP learns the contact point through populate(), the listener through on_add
-    lbp_log.insert(0, ("add", addrs[0]))
-    removed_at = {}          # address -> time of the listener's on_remove not yet followed by on_add
+    lbp_log.insert(0, ("add", addrs[0], S.host_for(cluster, addrs[0])))
     nt = {"failed_then_up": False, "remove_with_reconnector": False}
     qn = [0]
 
@@ -155,6 +194,11 @@ def _run(case, ctx, sim):
                          "%s: host %s has %d non-cancelled reconnection handlers (created at %r)" % (
                              where, a, len(acts), [hd.rec_created - t0 for hd in acts]))
                 return False
+            if h.is_up is True and acts and not h._currently_handling_node_up:
+                ctx.fail(["C25.reconnector", "active-after-up"],
+                         "%s: host %s is marked up but still has a non-cancelled reconnection handler (created at +%.2f s, "
+                         "%d attempts)" % (where, a, acts[0].rec_created - t0, len(acts[0].rec_attempts)))
+                return False
             if h.is_up is False and not h._currently_handling_node_up and not acts:
                 ctx.fail(["C25.reconnector", "none-active"],
                          "%s: host %s is marked down, nobody is handling an up event for it, and it has no active "
@@ -170,28 +214,51 @@ def _run(case, ctx, sim):
                                  "%s: host %s is marked up and not ignored but session %d has %s for it" % (
                                      where, a, si, "no pool" if pool is None else "a shut-down pool"))
                         return False
-        for name, log in (("listener", [(x[0], x[1]) for x in lis_log]), ("policy", lbp_log)):
-            per = {}
-            for kind, a in log:
-                per.setdefault(a, []).append(kind)
-            for a in sorted(per):
-                bad = check_sequence(per[a])
+        for hobj in removed_objs:
+            if any(k is hobj for k in cluster.metadata.all_hosts()):
+                continue
+            acts = active_handlers(hobj)
+            if acts:
+                ctx.fail(["C25.reconnector", "active-after-remove"],
+                         "%s: Cluster.on_remove(%s) has returned but the host still has a non-cancelled reconnection handler" % (
+                             where, hobj.endpoint.address))
+                return False
+        if stable:
+            known = cluster.metadata.all_hosts()
+            for si, s in enumerate(sessions):
+                for h, pool in list(s._pools.items()):
+                    if not pool.is_shutdown and not any(k is h for k in known):
+                        ctx.fail(["C25.removed-has-pool"],
+                                 "%s: host %s is no longer part of the cluster metadata (removed) but session %d still "
+                                 "holds a live pool for it (host.is_up=%r)" % (where, h.endpoint.address, si, h.is_up))
+                        return False
+        for name, log in (("listener", lis_log), ("policy", lbp_log)):
+            per, objs = {}, []
+            for rec in log:
+                kind, a, hobj = rec[0], rec[1], rec[2]
+                if not any(o is hobj for o in objs):
+                    objs.append(hobj)
+                per.setdefault(id(hobj), (a, []))[1].append(kind)
+            for hobj in objs:
+                a, seq = per[id(hobj)]
+                if a == ignored_addr:
+                    continue        # an ignored host is added without being marked up; a later UP event marks it up
+                bad = check_sequence(seq)
                 if bad:
-                    ctx.fail(["C25.notify", name, bad], "%s: %s notifications for %s: %r" % (where, name, a, per[a]))
+                    ctx.fail(["C25.notify", name, bad], "%s: %s notifications for one Host object of %s: %r" % (where, name, a, seq))
                     return False
-        # removed hosts are never reconnected
-        removed_at.clear()
-        for kind, a, t in lis_log:
-            if kind == "remove":
-                removed_at[a] = t
-            elif kind == "add":
-                removed_at.pop(a, None)
-        for a, t in sorted(removed_at.items()):
-            later = [e for e in net.connect_log if e[1] == a and e[0] > t]
+        # removed hosts are never reconnected: no connection attempt to the address between the return of
+        # Cluster.on_remove and the next Cluster.on_add for it
+        for i, (kind, a, ci) in enumerate(marks):
+            if kind != "removed":
+                continue
+            nxt = [m for m in marks[i + 1:] if m[1] == a and m[0] == "adding"]
+            hi = nxt[0][2] if nxt else len(net.connect_log)
+            later = [e for e in net.connect_log[ci:hi] if e[1] == a]
             if later:
                 ctx.fail(["C25.removed-reconnected"],
-                         "%s: host %s was removed at +%.2f s but connection attempts followed at %r" % (
-                             where, a, t - t0, [round(e[0] - t0, 2) for e in later]))
+                         "%s: Cluster.on_remove(%s) had returned, yet connection attempts to it followed at %r (no on_add "
+                         "in between)" % (where, a, [(round(e[0] - t0, 2), e[2]) for e in later]))
                 return False
         return True
 
@@ -311,6 +378,10 @@ def _run(case, ctx, sim):
     if nt["remove_with_reconnector"]:
         ctx.label("nt:remove-with-reconnector")
     ctx.nontrivial(nt["failed_then_up"] or nt["remove_with_reconnector"])
+    for name, e in sim.task_errors:
+        if isinstance(e, (RecursionError, AttributeError, TypeError, NameError)):
+            ctx.fail(["C25.task-error", type(e).__name__], "executor task %s died with %r" % (name, e))
+            break
     for name, e in world.actor_errors:
         ctx.fail(["C25.thread-error", type(e).__name__], "virtual thread %s died with %r" % (name, e))
         break
